@@ -181,6 +181,9 @@ func specParsed(p *FrameParser) bool {
 //@ ensures[C09.rap.only]     ret0 != nil ==> onlyRepoErrs(ret0, *common.ReceiveProbeNoPktError, *common.BadPacketError)
 //@ ensures[C09.rap.io]       ioFail == old(ioFail) || ret0 != nil
 //@ ensures[C05.rap.clock]    now() >= old(now())
+// a read that hit the read deadline stays recognisable as such (errors.Is(..., os.ErrDeadlineExceeded)): callers that
+// wait under one absolute deadline (the SACK handshake) rely on it to stop
+//@ ensures[C08.rap.deadline.kept] ncalls(Source.Read) == old(ncalls(Source.Read)) + 1 && isDeadline(lastres(Source.Read, 1)) ==> ret0 != nil && isDeadline(ret0)
 //@ modifies FrameParser.IP4, FrameParser.IP6, FrameParser.TCP, FrameParser.ICMP4, FrameParser.ICMP6, FrameParser.Payload, FrameParser.Layers, gopacket.DecodingLayerParser, elems(buffer), ghost clock, ghost ioFail
 
 //@ iface Source.Read
